@@ -83,6 +83,9 @@ func main() {
 			main = p2
 		}
 	}
+	if lerr == nil {
+		main.Raw = asWritten // lints about the author's text (shadowing, file flags) read the program as written
+	}
 	if os.Getenv("TVC_CARRIED") != "" && lerr == nil {
 		carriedDiag(main)
 		carriedDiag(asWritten)
